@@ -246,6 +246,11 @@ type Job struct {
 	Sizes      [][]int
 	Variant    Variant
 	History    []string // sources compiled before, on the same instance if Reuse
+	// HistTune[i] != 0: history compilation i runs on its own Compiler with its
+	// own Params carrying other tuning values (as a tuning or benchmarking tool
+	// does in the same process): low byte = CircMultArrayTreshold, bit 8 = other
+	// OptPruneGates, bit 9 = other target; "\x00self" as source = the program itself.
+	HistTune []int
 	Reuse      bool     // one compiler.Compiler value for history and program
 	SameParams bool     // one utils.Params value for history and program
 	Twice      bool     // compile the program itself twice on the instance, keep the second
@@ -300,6 +305,9 @@ func ioDesc(c *circuit.Circuit) string {
 	return sb.String()
 }
 
+// selfSrc as a history source stands for the job's own program.
+const selfSrc = "\x00self"
+
 // RunJob executes one job (inside a simulated run: map ranges draw from the tape).
 func RunJob(j Job, keepSSA bool) (a Artefacts) {
 	defer func() {
@@ -321,9 +329,26 @@ func RunJob(j Job, keepSSA bool) (a Artefacts) {
 		}
 		return p, compiler.New(p)
 	}
-	for _, h := range j.History {
+	for i, h := range j.History {
 		_, c2 := mk()
-		c2.Compile(h, [][]int{{64}, {64}}) // errors of history programs do not matter
+		sizes := [][]int{{64}, {64}}
+		if h == selfSrc {
+			h, sizes = j.Src, j.Sizes
+		}
+		if i < len(j.HistTune) && j.HistTune[i] != 0 {
+			tune := j.HistTune[i]
+			v := j.Variant
+			if tune&0x100 != 0 {
+				v.Prune = !v.Prune
+			}
+			if tune&0x200 != 0 {
+				v.GMW = !v.GMW
+			}
+			p := newParams(v)
+			p.CircMultArrayTreshold = tune & 0xff
+			c2 = compiler.New(p)
+		}
+		c2.Compile(h, sizes) // errors of history programs do not matter
 	}
 	var ssa bytes.Buffer
 	run := func() (*circuit.Circuit, error) {
@@ -437,6 +462,19 @@ func (w *world) Run(t *rt.Tape, trace bool) *core.Result {
 			nh := t.Choose(rt.SGen, 4)
 			for h := 0; h < nh; h++ {
 				var hp stream.Program
+				tune := 0
+				if t.Choose(rt.SGen, 3) == 0 {
+					// a compilation with other tuning parameters on its own instance
+					tune = []int{8, 10, 16, 24, 40, 0}[t.Choose(rt.SGen, 6)] | t.Choose(rt.SGen, 4)<<8
+					if tune == 0 {
+						tune = 0x100
+					}
+				}
+				j.HistTune = append(j.HistTune[:len(j.History)], tune)
+				if tune != 0 && t.Choose(rt.SGen, 2) == 0 {
+					j.History = append(j.History, selfSrc)
+					continue
+				}
 				if t.Choose(rt.SGen, 4) == 0 {
 					j.History = append(j.History, failing[t.Choose(rt.SGen, len(failing))])
 					continue
@@ -459,7 +497,16 @@ func (w *world) Run(t *rt.Tape, trace bool) *core.Result {
 			j.MapSeed = uint64(t.Raw(rt.SGen, nil))<<20 | 1
 		}
 		jobs[i] = j
-		smp.Jobs = append(smp.Jobs, fmt.Sprintf("history=%d reuse-compiler=%v same-params=%v twice=%v separate-process=%v", len(j.History), j.Reuse, j.SameParams, j.Twice, inChild[i]))
+		tuned := 0
+		for k := range j.History {
+			if k < len(j.HistTune) && j.HistTune[k] != 0 {
+				tuned++
+			}
+		}
+		if tuned > 0 {
+			res.Reach["job.history-with-other-tuning-parameters"]++
+		}
+		smp.Jobs = append(smp.Jobs, fmt.Sprintf("history=%d (with other tuning parameters: %d) reuse-compiler=%v same-params=%v twice=%v separate-process=%v", len(j.History), tuned, j.Reuse, j.SameParams, j.Twice, inChild[i]))
 	}
 	res.Sample = smp
 	res.Class = "prog=" + strings.SplitN(p.Name, "/", 2)[0]
